@@ -13,7 +13,7 @@ import (
 )
 
 func init() {
-	register("C02", checkC02, "R2.1 symbolic round trip encode∘parse = id: each of the 20 response parsers is abstractly interpreted on a symbolic frame under the property's well-formedness premises (protocol id 0 and length field = len-6 for TCP, function-code byte = the dispatcher's case constant, legal 0x0000/0xFF00 coil value for FC5, specified length for the fixed-size responses; no bound on the byte count, so all values 0..255 are covered); the object it returns on success becomes the receiver of that type's Bytes(), whose recorded writes must tile a buffer of exactly len(frame) bytes and, segment by segment, store the very bytes frame[o:o+w] (for RTU: the body, with the trailer being the CRC of the body as in C03). The parsed fields are also compared with the specification's response layout (unit id, byte count, payload position). R2.2: parsers of byte-counted responses succeed only if len(frame) = fixed overhead + byte count. R2.3: the exception recognisers return a non-nil error exactly for frames of exception length whose function byte has bit 7 set, with unit id, function-0x80 and code taken from the frame; dispatchers consult them before dispatching and can return a response only when bit 7 of the function byte is clear. R2.4: every dispatcher case calls the parser whose result type reports that case's function code and framing. Not decided: nothing beyond the stated premises; FC17's device-specific content is treated as opaque bytes. R2.3 also covers the recognisers the client constructors actually install (CRC-aware for RTU; a constructor installing a library parser next to a recogniser of unknown origin fails). R2.5 the clients hand the recogniser received[0:total] in every iteration (C07 R7.3). R2.6 acceptance: under the complete well-formedness premise (every legal byte count, exact length, even counts for register replies) no rejecting return of a reply parser is reachable. R2.7 every return of the reply dispatchers pairs a nil response with a non-nil error (C10 R10.3 on the four dispatchers). Inside R2.3 a constructor that can leave library functions of both framings installed (may-analysis of the stores to the two function fields) fails. R2.6 also on the dispatchers: a frame of a supported function with a length between its smallest reply and the ADU size reaches the per-function parser (no return of the dispatcher's own is reachable). R2.8 = shared-state rule from reply parsers, recognisers, reply encoders and CRC16. R2.4 also: each per-function parser is handed the dispatcher's whole input (all but the checked trailer for a verifying dispatcher). R2.9 = C12 R12.5: Do hands do's result to the parser unchanged. R2.3 is also stated on every reply dispatcher: an exception-length frame with bit 7 set comes back as the typed exception of its framing (or the CRC failure from a verifying entry), never as another error. R2.10 = C13 R13.4 on all reply types and Registers (no method writes the payload of the value the caller keeps).")
+	register("C02", checkC02, "R2.1 symbolic round trip encode∘parse = id: each of the 20 response parsers is abstractly interpreted on a symbolic frame under the property's well-formedness premises (protocol id 0 and length field = len-6 for TCP, function-code byte = the dispatcher's case constant, legal 0x0000/0xFF00 coil value for FC5, specified length for the fixed-size responses; no bound on the byte count, so all values 0..255 are covered); the object it returns on success becomes the receiver of that type's Bytes(), whose recorded writes must tile a buffer of exactly len(frame) bytes and, segment by segment, store the very bytes frame[o:o+w] (for RTU: the body, with the trailer being the CRC of the body as in C03). The parsed fields are also compared with the specification's response layout (unit id, byte count, payload position). R2.2: parsers of byte-counted responses succeed only if len(frame) = fixed overhead + byte count. R2.3: the exception recognisers return a non-nil error exactly for frames of exception length whose function byte has bit 7 set, with unit id, function-0x80 and code taken from the frame; dispatchers consult them before dispatching and can return a response only when bit 7 of the function byte is clear. R2.4: every dispatcher case calls the parser whose result type reports that case's function code and framing. Not decided: nothing beyond the stated premises; FC17's device-specific content is treated as opaque bytes. R2.3 also covers the recognisers the client constructors actually install (CRC-aware for RTU; a constructor installing a library parser next to a recogniser of unknown origin fails). R2.5 the clients hand the recogniser received[0:total] in every iteration (C07 R7.3). R2.6 acceptance: under the complete well-formedness premise (every legal byte count, exact length, even counts for register replies) no rejecting return of a reply parser is reachable. R2.7 every return of the reply dispatchers pairs a nil response with a non-nil error (C10 R10.3 on the four dispatchers). Inside R2.3 a constructor that can leave library functions of both framings installed (may-analysis of the stores to the two function fields) fails. R2.6 also on the dispatchers: a frame of a supported function with a length between its smallest reply and the ADU size reaches the per-function parser (no return of the dispatcher's own is reachable). R2.8 = shared-state rule from reply parsers, recognisers, reply encoders and CRC16. R2.4 also: each per-function parser is handed the dispatcher's whole input (all but the checked trailer for a verifying dispatcher). R2.9 = C12 R12.5: Do hands do's result to the parser unchanged. R2.3 is also stated on every reply dispatcher: an exception-length frame with bit 7 set comes back as the typed exception of its framing (or the CRC failure from a verifying entry), never as another error. R2.10 = C13 R13.4 on all reply types and Registers (no method writes the payload of the value the caller keeps). R2.11 acceptance: for the ten response parsers whose reply starts with a byte count (FC1-4, 23; TCP and RTU), under the well-formedness premises plus 'length agrees with the byte-count field' and a byte count of at least the smallest legal payload, no error return is feasible for any byte count up to 255 (a plausibility limit on the byte count refuses well-formed frames).")
 }
 
 type parserInfo struct {
@@ -130,6 +130,7 @@ func checkC02(c *Ctx, r *Report) {
 	r.instance("R2.10", packetValuesImmutable(c, r, "R2.10", "packet", responseFamily(c, "packet"), nil))
 	r.floor("R2.10", 60)
 	r.floor("R2.1", 20)
+	r.floor("R2.11", 10)
 	r.floor("R2.2", 10)
 	r.floor("R2.3", 5)
 	r.floor("R2.4", 20)
@@ -214,6 +215,50 @@ func c02RoundTrip(c *Ctx, r *Report, pi parserInfo, crc *ssa.Function, control b
 		r.funcs[id] = true
 	}
 	prem := framePremises(pf, data, pi.tcp, pi.fc, true)
+	// R2.11: a frame whose length agrees with its own byte-count field is accepted for every
+	// byte-count value 0..255 (the property's quantifier): under that extra premise no error return
+	// of the parser is feasible. (A plausibility limit on the byte count refuses well-formed frames.)
+	if sp := specFor(pi.fc); sp != nil && !control && len(sp.resp) > 0 && (sp.resp[0].kind == sByteCount || sp.resp[0].kind == sCountByte) && pi.fc != 17 {
+		an2 := &Analysis{ctx: c, u: newUniverse(), top: pi.fn}
+		if crc != nil {
+			an2.uninterp = map[*ssa.Function]string{crc: "crc16"}
+		}
+		f2 := an2.newFrame(pi.fn, nil, nil)
+		if d2, ok := f2.vals[pi.fn.Params[0]].(ASlice); ok {
+			off, trailer := int64(8), int64(0)
+			if !pi.tcp {
+				off, trailer = 2, 2
+			}
+			bc := f2.frameBytes(d2, affConst(off), 1, true)
+			var p2 DNF
+			// smallest payload the specification allows (quantity >= 1): one byte of coils, one register
+			minBC := int64(1)
+			if pi.fc == 3 || pi.fc == 4 || pi.fc == 23 {
+				minBC = 2
+			}
+			for _, cj := range framePremises(f2, d2, pi.tcp, pi.fc, true) {
+				p2 = append(p2, cj.with(atomGE(d2.ln, affConst(off+1))).with(atomEQ(d2.ln, bc.addc(off+1+trailer))).with(atomGE(bc, affConst(minBC))))
+			}
+			f2.run(p2)
+			r.instance("R2.11", 1)
+			bad := ""
+			for _, rs := range f2.returns {
+				if len(rs.state) == 0 {
+					continue
+				}
+				nf := f2.nilness(rs.vals[1])
+				if nf.kind == fConst && nf.b {
+					continue
+				}
+				bad = c.pos(rs.instr.Pos()) + ": " + truncate(rs.state.String(), 200)
+			}
+			if bad == "" {
+				r.ok("R2.11", id, "a frame whose length agrees with its byte-count field is accepted for every byte count from the smallest legal payload up to 255", pos, true)
+			} else {
+				r.fail("R2.11", id, "a well-formed frame (length agrees with its own byte-count field) can be refused", pos, bad, "wellformed-refused")
+			}
+		}
+	}
 	pf.run(prem)
 	var site *ReturnSite
 	n := 0
